@@ -937,6 +937,10 @@ pub struct TlsPairCase {
     pub ops: Vec<PairOp>,
     /// read buffer sizes cycled through by the reader of each end (0 is replaced by 1)
     pub caps: Vec<u16>,
+    /// after the script: this end (false client, true server) goes away without shutting down; the
+    /// peer must be told by an error, a truncated stream is not a clean end of stream
+    #[serde(default)]
+    pub abort: Option<bool>,
 }
 
 pub struct TlsPairEngine;
@@ -1180,6 +1184,31 @@ impl Engine for TlsPairEngine {
                     v.push((format!("C18/{name}/early-eof"), format!("{dn}: end of stream although the writer did not shut down")));
                 }
             }
+            // ---- abrupt end: one end is dropped without shutdown; its peer must see an error
+            if let (Some(x), true) = (c.abort, v.is_empty()) {
+                let x = x as usize;
+                if !shut[x] && !raw && sent[0].len() + sent[1].len() > 0 {
+                    let (gone, mut stay) = if x == 0 { (ea, eb) } else { (eb, ea) };
+                    drop(gone);
+                    stay.got.eof = false;
+                    let wait = std::future::poll_fn(|cx| {
+                        pump(&mut stay, cx);
+                        if stay.got.eof || stay.got.err.is_some() {
+                            Poll::Ready(())
+                        } else {
+                            Poll::Pending
+                        }
+                    });
+                    let _ = tokio::time::timeout(std::time::Duration::from_secs(30), wait).await;
+                    let dn = if x == 0 { "client" } else { "server" };
+                    if stay.got.eof && stay.got.err.is_none() {
+                        v.push((format!("C18/{name}/truncation-reported-as-clean-eof"), format!("the {dn} went away without shutting its TLS stream down; its peer read a clean end of stream instead of an error")));
+                    } else if stay.got.err.is_none() {
+                        v.push((format!("C18/{name}/eof-not-propagated"), format!("the {dn} went away; its peer sees neither an error nor the end of the stream")));
+                    }
+                    v.push(("abort".into(), "1".into()));
+                }
+            }
             v.push(("class".into(), format!("{}", sent[0].len() + sent[1].len())));
             v.push(("shut".into(), format!("{}", shut[0] as u8 + shut[1] as u8)));
             v
@@ -1191,6 +1220,9 @@ impl Engine for TlsPairEngine {
             match sig.as_str() {
                 "class" => moved = msg.parse().unwrap_or(0),
                 "shut" => shuts = msg.parse().unwrap_or(0),
+                "abort" => {
+                    rep.class("tls-abrupt-end-without-close-notify");
+                }
                 _ => rep.violate(sig, msg),
             }
         }
@@ -1223,6 +1255,7 @@ pub fn tls_pair_strategy() -> impl proptest::strategy::Strategy<Value = TlsPairC
         prop_oneof![Just(16u16), 16u16..64, 64u16..4096, Just(65535u16)],
         proptest::collection::vec(op, 1..24),
         proptest::collection::vec(prop_oneof![Just(1u16), 2u16..64, 64u16..20000], 1..4),
+        prop_oneof![2 => Just(None), 1 => any::<bool>().prop_map(Some)],
     )
-        .prop_map(|(buf, ops, caps)| TlsPairCase { buf, ops, caps })
+        .prop_map(|(buf, ops, caps, abort)| TlsPairCase { buf, ops, caps, abort })
 }
